@@ -12,6 +12,8 @@ from sa.props._lib_f import (assign_sites, call_sites, catches_everything, class
                              named_calls, never_returns_normally, none_guard, param_names, resolver, subst_eval)
 
 PROPERTY = "C23"
+INCLUDE = [("C22", None, "the HTTP client decodes chunked response bodies with http._ChunkedTransferDecoder: its clauses are necessary for "
+            "'the body delivered equals the body bytes received' with chunked coding")]
 P = "web/_newclient.py"
 H = "web/http.py"
 TECHNIQUE = "CFG dominance/must-pass, state-set refinement, dispatch tables, finite evaluation"
@@ -107,10 +109,14 @@ def _refine_states(g, n, start, attr="self._state"):
 
 def check(ctx):
     mod = ctx.mod(P)
-    _check_parser(ctx, mod)
-    _check_decoders(ctx)
-    _check_response(ctx, mod)
-    _check_protocol(ctx, mod)
+    with ctx.section("parser"):
+        _check_parser(ctx, mod)
+    with ctx.section("decoders"):
+        _check_decoders(ctx)
+    with ctx.section("response"):
+        _check_response(ctx, mod)
+    with ctx.section("protocol"):
+        _check_protocol(ctx, mod)
 
 
 # ------------------------------------------------------------------------------------------------
